@@ -88,7 +88,11 @@ func c19Ctx() *plush.Context {
 
 func c19Run(b *core.B) {
 	small := []int{}
-	for i := -8; i <= 8; i++ {
+	lim := 8
+	if b.Tier == core.Thorough {
+		lim = 24
+	}
+	for i := -lim; i <= lim; i++ {
 		small = append(small, i)
 	}
 	ext := []int{math.MinInt, math.MinInt + 1, math.MaxInt - 1, math.MaxInt}
@@ -234,7 +238,7 @@ func c19Run(b *core.B) {
 	r := b.Rng(3)
 	nRand := 2000
 	if b.Tier == core.Thorough {
-		nRand = 100000
+		nRand = 2000000
 	}
 	for i := 0; i < nRand/b.NBatches; i++ {
 		k := kinds[r.Intn(5)]
@@ -397,7 +401,7 @@ func init() {
 	core.Register(&core.Prop{
 		ID:    "C19",
 		Level: "exploration",
-		Rule: "range(a,b), between(a,b), until(n) called directly for all a, b, n in [-8, 8] and {MinInt, MinInt+1, MaxInt-1, MaxInt} (all pairs, 441 + extremes) with expectations from overflow-checked arithmetic (sequences longer than 64 are checked on their first 64 elements and for not ending early) and drained with a Next() budget of expected+2, so termination is decided by count; the same helpers through a template for loop for all small arguments; iterators.GroupBy and plush.GroupByHelper for every length 0-40 x n in [-2, 12] x {[]string, []int, []struct, []*struct, *[]int, [5]int, *[5]int} plus random larger cases, judged by the partition laws (at most n groups, consecutive, concatenation = input, all but the last of equal size, errors for n <= 0 and non-sequences) and against each other; len on strings (multi-byte, invalid UTF-8), slices, arrays, maps, pointers to them, directly and through a template. Enumerated cases are distinct by construction.",
+		Rule: "range(a,b), between(a,b), until(n) called directly for all a, b, n in [-8, 8] (thorough: [-24, 24]) and {MinInt, MinInt+1, MaxInt-1, MaxInt} (all pairs, 441 + extremes) with expectations from overflow-checked arithmetic (sequences longer than 64 are checked on their first 64 elements and for not ending early) and drained with a Next() budget of expected+2, so termination is decided by count; the same helpers through a template for loop for all small arguments; iterators.GroupBy and plush.GroupByHelper for every length 0-40 x n in [-2, 12] x {[]string, []int, []struct, []*struct, *[]int, [5]int, *[5]int} plus random larger cases, judged by the partition laws (at most n groups, consecutive, concatenation = input, all but the last of equal size, errors for n <= 0 and non-sequences) and against each other; len on strings (multi-byte, invalid UTF-8), slices, arrays, maps, pointers to them, directly and through a template. Enumerated cases are distinct by construction.",
 		Assume:     []string{"element order of a sequence is what Next() returns until the first nil"},
 		Batches:    batchesQT(8, 16),
 		Run:        c19Run,
